@@ -29,6 +29,11 @@ PROTO = ('errors.ProtocolError', 'errors.CriticalProtocolError', 'errors.Payload
 
 def check(run):
     R = run
+    R.rule('C04.shared', 'objects created once per class / per function definition (class-level attributes, parameter '
+           'defaults) are only read: no buffer, validator, poll object, header list or option dict is shared between '
+           'connections', 2)
+    from .common import shared_state
+    shared_state(R, 'C04.shared')
     R.rule('C04.wire', 'header fields are extracted from the two header bytes with the RFC 6455 bit layout and '
                        'passed to the same-named frame constructor slots', 8)
     R.rule('C04.table', 'each violation class has a live check site (operands wire-derived when it runs)', 10)
@@ -551,6 +556,12 @@ def catch(R):
          construct='arriving protocol errors')
     sc = R.ctx('stream.WebsocketStream.feed')
     esc = R.exc.escapes(sc)
+    # everything the parser / stream layer can raise on bad input is in one of the two families feed() reports
+    stray = sorted(t for t in esc if not ({'errors.ProtocolError', 'errors.CriticalProtocolError'} & set(R.exc.supers(t))))
+    R.ob('C04.catch', 'every failure of the stream layer is a (Critical)ProtocolError', not stray,
+         '%s can be raised while parsing server data but is neither a ProtocolError nor a CriticalProtocolError: it '
+         'passes WebSocket.feed\'s handlers, no ProtocolError event is reported, and it ends in the session loop\'s '
+         'catch-all' % stray, func='stream.WebsocketStream.feed', node=None, construct='stray stream failure %s' % stray)
     R.ob('C04.catch', 'ParseError converted in the stream', not any('parser.ParseError' in R.exc.supers(t) for t in esc),
          'ParseError escapes WebsocketStream.feed unconverted', func='stream.WebsocketStream.feed', node=None,
          construct='ParseError conversion')
